@@ -395,6 +395,38 @@ def declared_restrictions_stick(ctx, rng):
                                   {"kty": kty, "how": how, "declared": restr, "op": op})
 
 
+def mislabelled_key_sizes(ctx, rng):
+    """a peer wraps the CEK with a key of one size and labels the recipient with the algorithm of another size (the label sits in the
+    per-recipient header, which is not integrity protected): the holder of that key must not get a plaintext - the key does not have the size
+    the named algorithm needs"""
+    j = J.load()
+    pt = b"c06 mislabelled"
+    for fam, sizes in (("A%dKW", (128, 192, 256)), ("A%dGCMKW", (128, 192, 256))):
+        for real in sizes:
+            key = gen.new_oct(real)
+            for label in sizes:
+                if label == real:
+                    continue
+                for form in ("flattened", "general"):
+                    ctx.ev()
+                    real_alg, label_alg = fam % real, fam % label
+                    b = g.make(form, "A128GCM", [(real_alg, key, None)], pt, alg_in="recipient")
+                    t = copy.deepcopy(b.token)
+                    holder = t["recipients"][0] if "recipients" in t else t
+                    holder["header"] = {**holder["header"], "alg": label_alg}
+                    for any_mode in (False, True):
+                        reg = j.jwe.JWERegistry(algorithms=[label_alg, real_alg, "A128GCM"], verify_all_recipients=not any_mode)
+                        o = call(j.jwe.decrypt_json, copy.deepcopy(t), j.key(key), registry=reg)
+                        ctx.count("calls")
+                        ctx.count("mislabelled_size_cases")
+                        ctx.nontrivial(("mislabelled", real_alg, label_alg, form, any_mode))
+                        ctx.cell("decrypt", "mislabelled-size", label_alg, "succeeded" if o.ok else "failed")
+                        if o.ok:
+                            ctx.violation(f"unsuitable-key-accepted:size:decrypt@mislabelled:{fam % 0}",
+                                          f"a {real}-bit key decrypted a token whose recipient is labelled {label_alg} (CEK wrapped with {real_alg}); "
+                                          f"{label_alg} needs a {label}-bit key", {"real": real_alg, "label": label_alg, "form": form, "token": t})
+
+
 def onepu_sender_key(ctx, rng):
     """ECDH-1PU: the sender's static key takes part in a JWE operation, so its declared use must be enc (and producing needs its private part)"""
     j = J.load()
@@ -522,6 +554,8 @@ def run_shard(ctx):
         onepu_sender_key(ctx, rng)
     if sh == 2:
         declared_restrictions_stick(ctx, rng)
+    if sh == 3:
+        mislabelled_key_sizes(ctx, rng)
     work = []
     for alg in JWS_NAMES:
         for kind in KINDS:
@@ -571,3 +605,4 @@ def replay(ctx, case):
         onepu_curve_mismatch(ctx, ctx.rng)
         onepu_sender_key(ctx, ctx.rng)
         declared_restrictions_stick(ctx, ctx.rng)
+        mislabelled_key_sizes(ctx, ctx.rng)
